@@ -1367,7 +1367,7 @@ def run(chk: core.Check) -> int:
         print("STALE-FINDING: property=C04 %s was not observed in this run" % fid)
     chk.coverage["type_classes"] = dict(sorted(tcs.items()))
     chk.coverage["default_kinds"] = dict(sorted(dks.items()))
-    chk.coverage["programs"] = {"domain": n_cases_dom, "wide": len(wcases)}
+    chk.coverage["programs_by_stream"] = {"domain": n_cases_dom, "wide": len(wcases)}
     chk.coverage["stats"] = dict(sorted(stats.items()))
     return chk.finish("domain: %d generated interface descriptions (0-5 parameters; scalars, Optional, Union, List, Literal[str...], Literal single / with int members, "
                       "Optional[Literal], Annotated[T, 'note'], Tuple[T, ...], Callable[..., T]; literal defaults incl. 0 / 0.0 / False / '' / None) + %d corner "
